@@ -42,6 +42,18 @@ inline std::vector<uint32_t> parse_codes(const std::string &s) {
 	return v;
 }
 
+// Defaults for harnesses.
+struct HarnessBase {
+	static constexpr bool has_snapshot = false;
+	InstResult *res = nullptr;
+	void check_state() {}
+	// Destructive end-of-history check (destroy every owner, look for leaks). The engine rebuilds the
+	// state afterwards.
+	void final_check() {}
+	void save(std::string &) {}
+	void load(const std::string &) {}
+};
+
 template<class H>
 std::string hist_string(H &h, const std::vector<uint32_t> &hist) {
 	// "codes | human readable".  show() may depend on state, so callers build the readable part
@@ -67,10 +79,13 @@ bool guarded_apply(H &h, uint32_t op, InstResult &res, const std::vector<uint32_
 	};
 	try {
 		san_flag() = 0;
+		pending().reset();
 		h.apply(op);
+		raise_pending();
 		if(san_flag()) { san_flag() = 0; throw Violation{"", "asan:" + h.show_class(op), "AddressSanitizer report during " + h.show(op)}; }
 		if(state_check) {
 			h.check_state();
+			raise_pending();
 			if(san_flag()) { san_flag() = 0; throw Violation{"", "asan:check:" + h.show_class(op), "AddressSanitizer report in observers after " + h.show(op)}; }
 		}
 		return true;
@@ -152,23 +167,26 @@ InstResult bfs(H &h, const std::string &name, const BfsOptions &opt, const std::
 			}
 			slot_set(codes + " | " + h.show(op));
 			res.transitions++;
-			// need to know whether the state is new before running check_state; apply first
-			if(!guarded_apply(h, op, res, hh, false)) continue;
+			// Harnesses whose canonical form is the raw memory of the implementation (snapshot harnesses)
+			// need the state oracle only once per distinct state.  For all others canon() is built from
+			// public observations, which a defect can leave unchanged while the implementation state is
+			// broken, so the state oracle and the end-of-history check run on EVERY transition.
+			if(!guarded_apply(h, op, res, hh, !H::has_snapshot)) continue;
 			cbuf.clear(); h.canon(cbuf);
 			Hash128 k = hash128(cbuf.data(), cbuf.size());
-			if(seen.insert(k).second) {
-				res.states++;
-				if((int)hh.size() > res.max_depth) {
-					res.max_depth = (int)hh.size();
-					// keep the first state and the most recent deepest ones as samples
-					if(res.samples.size() >= 4) res.samples.erase(res.samples.begin() + 1);
-					res.samples.push_back(hist_string(h, hh));
-				}
-				bool ok = true;
+			bool isnew = seen.insert(k).second;
+			bool ok = true;
+			if(H::has_snapshot ? isnew : true) {
 				try {
 					san_flag() = 0;
-					h.check_state();
-					if(san_flag()) throw Violation{"", "asan:check:" + h.show_class(op), "AddressSanitizer report in observers after " + h.show(op)};
+					if(H::has_snapshot) {
+						h.check_state();
+						raise_pending();
+						if(san_flag()) throw Violation{"", "asan:check:" + h.show_class(op), "AddressSanitizer report in observers after " + h.show(op)};
+					}
+					h.final_check();
+					raise_pending();
+					if(san_flag()) throw Violation{"", "asan:final:" + h.show_class(op), "AddressSanitizer report while destroying the owners after " + h.show(op)};
 				} catch(const Violation &v) {
 					Violation w = v; if(w.prop.empty()) w.prop = h.prop();
 					res.add_violation(w, hist_string(h, hh)); ok = false;
@@ -176,6 +194,15 @@ InstResult bfs(H &h, const std::string &name, const BfsOptions &opt, const std::
 					res.add_violation({h.prop(), "panic:check:" + h.show_class(op), "library assertion in observers after " + h.show(op) + ": " + p.text}, hist_string(h, hh)); ok = false;
 				}
 				san_flag() = 0;
+			}
+			if(isnew) {
+				res.states++;
+				if((int)hh.size() > res.max_depth) {
+					res.max_depth = (int)hh.size();
+					// keep the first state and the most recent deepest ones as samples
+					if(res.samples.size() >= 4) res.samples.erase(res.samples.begin() + 1);
+					res.samples.push_back(hist_string(h, hh));
+				}
 				if(!ok) continue;
 				Node c;
 				c.hist = std::move(hh);
@@ -206,6 +233,11 @@ int replay(H &h, const std::string &history) {
 		printf("  step %zu: %s\n", hh.size(), h.show(op).c_str());
 		fflush(stdout);
 		if(!guarded_apply(h, op, res, hh, true)) break;
+	}
+	if(res.violations.empty()) {
+		try { pending().reset(); h.final_check(); raise_pending(); if(san_flag()) throw Violation{"", "asan:final", "AddressSanitizer report while destroying the owners"}; }
+		catch(const Violation &v) { Violation w = v; if(w.prop.empty()) w.prop = h.prop(); res.add_violation(w, history); }
+		catch(const Panic &p) { res.add_violation({h.prop(), "panic:final", p.text}, history); }
 	}
 	for(auto &v : res.violations) printf("REPLAY-VIOLATION property=%s sig=%s: %s\n", v.prop.c_str(), v.sig.c_str(), v.msg.c_str());
 	if(res.violations.empty()) printf("REPLAY-OK %zu steps, no violation\n", ops.size());
